@@ -1200,7 +1200,10 @@ func treeParam(t *simrt.Tape, strs []string) (string, string) {
 // always succeeds; the disassembler either fails (objdump missing or exiting
 // non-zero) or lists one instruction every 4 bytes; SourceLine answers a pure
 // function of the address.
-type scriptObj struct{ disasmFails bool }
+type scriptObj struct {
+	disasmFails bool
+	stripped    bool // the disassembly carries no function, file or line
+}
 
 type scriptObjFile struct {
 	name         string
@@ -1217,7 +1220,11 @@ func (o scriptObj) Disasm(file string, start, end uint64, intelSyntax bool) ([]p
 	}
 	var insts []plugin.Inst
 	for a := start &^ 3; a < end && len(insts) < 256; a += 4 {
-		insts = append(insts, plugin.Inst{Addr: a, Text: fmt.Sprintf("mov %%r%d,%%r%d", a%7, a%5), Function: fmt.Sprintf("sym_%x", a>>8), File: "/src/main.go", Line: int(10 + a%50)})
+		in := plugin.Inst{Addr: a, Text: fmt.Sprintf("mov %%r%d,%%r%d", a%7, a%5)}
+		if !o.stripped {
+			in.Function, in.File, in.Line = fmt.Sprintf("sym_%x", a>>8), "/src/main.go", int(10+a%50)
+		}
+		insts = append(insts, in)
 	}
 	return insts, nil
 }
